@@ -583,7 +583,9 @@ func c18ObserveOps() []string {
 	for _, k := range c18Pool {
 		ops = append(ops, "get "+lib.Hex(k))
 	}
-	ops = append(ops, "scan -", "scan 61", "scan ff", "safe", "pick", "layout", "ages", "agesort")
+	// prefixes that start inside one table of a multi-table level and end in the next (AllTablesForPrefix's binary search
+	// and forward walk), besides the whole range and one-byte prefixes
+	ops = append(ops, "scan -", "scan 61", "scan ff", "scan 6162", "scan 616263", "scan 62", "safe", "pick", "layout", "ages", "agesort")
 	return ops
 }
 
@@ -680,8 +682,10 @@ func c18GenDB(r *lib.Rng, tier string) lib.Case {
 			ops = append(ops, "get "+lib.Hex(c07Key(r)))
 		case x < 66:
 			ops = append(ops, "scan "+lib.Hex(lib.Pick(r, [][]byte{nil, {0x61}, {0xff}})))
-		case x < 80:
+		case x < 78:
 			ops = append(ops, "bg f")
+		case x < 84:
+			ops = append(ops, "bg cf")
 		default:
 			ops = append(ops, "bg c")
 		}
@@ -786,7 +790,24 @@ func c18Fixed() []lib.Case {
 		minor = append(minor, "compact", "apply")
 		minor = append(minor, obs...)
 	}
+	// a flush writes its table while the compaction task is between choosing the file name of its output table and saving
+	// it (one TableWriter for both tasks): table numbers must be handed out atomically
+	v40 := strings.Repeat("41", 40)
+	w40 := strings.Repeat("42", 40)
+	cf := []string{"put 6130 " + v40, "bg f", "bg f", "put 6130 " + w40, "bg cf", "bg f", "bg c", "get 6130", "scan -",
+		"put 6230 " + v40, "bg f", "bg f", "bg c", "bg c", "get 6130", "get 6230", "scan -", "chk"}
+	// 13 level-0 tables of two checkpoint sources whose sequence numbers (hence ages) tie pairwise
+	var tie []string
+	for i := 0; i < 7; i++ {
+		for s := 0; s < 2; s++ {
+			tie = append(tie, fmt.Sprintf("w %d put %02x%02x %s", s, 0x10*(s+1), 0x61+i%3, strings.Repeat("43", 50)))
+		}
+	}
+	tie = append(tie, "load", "valid", "ages", "agesort", "compact", "apply", "valid", "get 1061", "get 2062", "scan -", "safe", "pick", "layout",
+		"compact", "apply", "valid", "get 1061", "get 2062", "scan -", "safe", "pick", "layout")
 	return []lib.Case{
+		{Header: "M C18 mode=db mem=40 target=1048576 l0=1 amp=100000 smallest=1099511627776", Ops: cf, Tags: []string{"flush-inside-compaction-write"}},
+		{Header: "M C18 mode=ckpt levels=6 nsrc=2 order=1.0 mem=40 sl0=100 samp=100000 ssmall=1099511627776 l0=1 amp=150 smallest=1099511627776 target=1048576", Ops: tie, Tags: []string{"tied-ages-13-l0"}},
 		{Header: "M C18 mode=direct levels=4 l0=1 amp=250 smallest=1099511627776 target=1048576", Ops: d22, Tags: []string{"regress-D22"}},
 		{Header: "M C18 mode=direct levels=4 l0=1 amp=250 smallest=1099511627776 target=1048576", Ops: d22f, Tags: []string{"regress-D22"}},
 		{Header: "M C18 mode=direct levels=4 l0=2 amp=100000 smallest=1 target=24", Ops: minor, Tags: []string{"minor-chain"}},
@@ -852,6 +873,45 @@ func propC18() *lib.Prop {
 
 // ---- db mode ----
 
+// c18GateFS holds back one creation of a table file: the writer that called New stays between choosing the file name
+// and saving the file until the harness releases it (the window in which a flush can write its own table).
+type c18GateFS struct {
+	storage.FileSystem
+	mu      sync.Mutex
+	armed   bool
+	entered chan struct{}
+	release chan struct{}
+}
+
+func (g *c18GateFS) New(path string) storage.File {
+	g.mu.Lock()
+	hold := g.armed && strings.HasSuffix(path, ".sst")
+	if hold {
+		g.armed = false
+	}
+	g.mu.Unlock()
+	if hold {
+		g.entered <- struct{}{}
+		<-g.release
+	}
+	return g.FileSystem.New(path)
+}
+
+func (g *c18GateFS) arm() {
+	g.mu.Lock()
+	g.armed = true
+	g.entered = make(chan struct{}, 1)
+	g.release = make(chan struct{})
+	g.mu.Unlock()
+}
+
+func (g *c18GateFS) disarm() {
+	g.mu.Lock()
+	g.armed = false
+	g.mu.Unlock()
+}
+
+
 // runC18DB is c07.go's runDkvTrace (hook-scheduled real dkv.DB) extended with what C18 compares at every compaction
 // step: the oracle answers computed from the real sizes before Compact runs and the compactor's cursor after it.
 func runC18DB(c lib.Case) []string {
@@ -859,7 +919,7 @@ func runC18DB(c lib.Case) []string {
 	defer c07Mu.Unlock()
 	cfg := parseC07Header(c.Header)
 	c07Seq++
-	fs := storage.NewMemoryFilesystem().WithWorkingDir(fmt.Sprintf("c18-%d", c07Seq))
+	fs := &c18GateFS{FileSystem: storage.NewMemoryFilesystem().WithWorkingDir(fmt.Sprintf("c18-%d", c07Seq))}
 	db := dkv.New(dkv.DBOptions{FileSystem: fs, MemTableSize: uint64(cfg.mem), TargetFileSize: uint64(cfg.target), L0TableNumCompactionTrigger: cfg.l0})
 	comp := db.VerifCompactor()
 	comp.MaxSizeAmplificationPercent = cfg.maxAmp
@@ -870,6 +930,7 @@ func runC18DB(c lib.Case) []string {
 	s := &dkvSched{db: db, parked: map[string]*parkedTask{}, events: make(chan string, 64), ids: map[*sst.Table]int{}}
 	verifhook.Set(s.handler)
 	defer func() {
+		fs.disarm()
 		s.freeAll()
 		done := make(chan struct{})
 		go func() { db.WaitOnTasks(); close(done) }()
@@ -910,7 +971,22 @@ func runC18DB(c lib.Case) []string {
 				out = append(out, "rot=0")
 			}
 		case "chk":
-			out = append(out, "safe")
+			// the files of the live tables are pairwise distinct (table numbers are handed out atomically per table)
+			seen := map[string]bool{}
+			dup := ""
+			for _, l := range db.VerifLevels().VerifLayout() {
+				for _, ti := range l {
+					if seen[ti.URI] {
+						dup = ti.Name
+					}
+					seen[ti.URI] = true
+				}
+			}
+			if dup != "" {
+				out = append(out, "safe dup-file "+dup)
+			} else {
+				out = append(out, "safe")
+			}
 		case "get":
 			out = append(out, showEntry(db.Get(lib.UnHex(f[1]))))
 		case "scan":
@@ -1022,6 +1098,97 @@ func runC18DB(c lib.Case) []string {
 					}
 					flushedSinceBegin = true
 					out = append(out, fmt.Sprintf("flushcommit %d", n))
+				}
+			case "cf":
+				// a flush writes its tables while the compaction task is between choosing the file name of its first
+				// output table and saving it (TableWriter is shared by both tasks)
+				if compactQ == 0 || flushQ == 0 {
+					out = append(out, "none")
+					continue
+				}
+				tc := s.waitParked("compact")
+				tf := s.waitParked("flush")
+				if tc == nil || tf == nil {
+					out = append(out, "timeout")
+					continue
+				}
+				if tc.label != "dkv.compact.begin" || tf.label != "dkv.flush.begin" {
+					out = append(out, "skip")
+					continue
+				}
+				orc := c18Oracle(db.VerifLevels(), comp)
+				nSealed := tf.payload[1].(int)
+				fs.arm()
+				s.release("compact")
+				got := ""
+				deadline := time.Now().Add(schedGrace)
+				for got == "" {
+					select {
+					case <-fs.entered:
+						got = "writing"
+						continue
+					case e := <-s.events:
+						if e == "dkv.compact.idle" {
+							got = "idle"
+						}
+						continue
+					default:
+					}
+					if time.Now().After(deadline) {
+						got = "timeout"
+					} else {
+						time.Sleep(20 * time.Microsecond)
+					}
+				}
+				switch got {
+				case "idle":
+					fs.disarm()
+					compactQ--
+					c18Bump("db:compact-none")
+					out = append(out, fmt.Sprintf("compactidle %s cur=%d", orc, comp.VerifMinorLevel()))
+				case "writing":
+					// the compaction holds a file name; now the flush task writes its tables and parks at its commit
+					s.release("flush")
+					okF := false
+					dl := time.Now().Add(schedGrace)
+					for time.Now().Before(dl) {
+						s.mu.Lock()
+						p := s.parked["flush"]
+						s.mu.Unlock()
+						if p != nil && p.label == "dkv.flush.commit" {
+							okF = true
+							break
+						}
+						time.Sleep(20 * time.Microsecond)
+					}
+					close(fs.release)
+					okC := false
+					dl = time.Now().Add(schedGrace)
+					for time.Now().Before(dl) {
+						s.mu.Lock()
+						p := s.parked["compact"]
+						s.mu.Unlock()
+						if p != nil && p.label == "dkv.compact.commit" {
+							okC = true
+							break
+						}
+						time.Sleep(20 * time.Microsecond)
+					}
+					if !okF || !okC {
+						out = append(out, "timeout")
+						continue
+					}
+					flushedSinceBegin = false
+					c18Bump("db:flush-write-inside-compaction-write")
+					out = append(out, fmt.Sprintf("cf compactbegin %s cur=%d flushbegin %d", orc, comp.VerifMinorLevel(), nSealed))
+				default:
+					fs.disarm()
+					select {
+					case <-fs.release:
+					default:
+						close(fs.release)
+					}
+					out = append(out, "timeout")
 				}
 			case "c":
 				if compactQ == 0 {
